@@ -14,6 +14,10 @@ PIPE_STD_TYPES = ["80_GGG", "100_GGG", "125_GGG", "150_GGG", "200_GGG", "100_ST<
 PUMP_STD_TYPES = ["P1", "P2", "P3"]
 
 
+TABLE_OF_FN = {"create_pump": "pump", "create_compressor": "compressor", "create_heat_exchanger": "heat_exchanger",
+               "create_flow_control": "flow_control"}
+
+
 def _labels(rng, n, sorted_labels, big=False):
     """n distinct non-negative labels, non contiguous."""
     if big:
@@ -77,7 +81,7 @@ def _gen_tree(rng, family, max_junctions, sorted_labels, thermal, kinds, big_lab
     cnt = _Counter(rng, sorted_labels)
     all_kinds = ["pipe_std", "valve", "pump", "compressor", "flow_control", "press_control",
                  "heat_exchanger", "mass_storage", "source", "second_feeder", "valve_pi",
-                 "heights", "sections", "closed_valve", "oos", "nan_load", "trickle", "split_feeder"]
+                 "heights", "sections", "closed_valve", "oos", "nan_load", "trickle", "split_feeder", "standby"]
     if kinds is None:
         k = rng.randint(0, len(all_kinds))
         kinds = set(rng.sample(all_kinds, k))
@@ -197,6 +201,27 @@ def _gen_tree(rng, family, max_junctions, sorted_labels, thermal, kinds, big_lab
                 "from_junction": a, "to_junction": b, "controlled_junction": b,
                 "controlled_p_bar": round(p0 * rng.uniform(0.6, 0.95), 3), "index": idx}})
             meta["branches"].append(("press_control", idx))
+    # stand-by twin: an out-of-service element of the same kind with other parameters in parallel to a machine /
+    # exchanger / controller (row order then decides whether the idle one comes first in its table)
+    if "standby" in kinds:
+        for o in list(ops):
+            if o["fn"] in ("create_pump", "create_compressor", "create_heat_exchanger", "create_flow_control") and rng.random() < 0.8:
+                kw = dict(o["kw"])
+                t_ = TABLE_OF_FN[o["fn"]]
+                kw["index"] = cnt.new(t_)
+                kw["in_service"] = False
+                if o["fn"] == "create_pump":
+                    kw["std_type"] = rng.choice([p_ for p_ in PUMP_STD_TYPES if p_ != o["kw"]["std_type"]])
+                elif o["fn"] == "create_compressor":
+                    kw["pressure_ratio"] = round(o["kw"]["pressure_ratio"] + 0.2, 3)
+                elif o["fn"] == "create_heat_exchanger":
+                    kw["qext_w"] = round(o["kw"]["qext_w"] * 2 + 100.0, 1)
+                else:
+                    kw["controlled_mdot_kg_per_s"] = round(o["kw"]["controlled_mdot_kg_per_s"] * 3, 4)
+                # half of the time the idle twin is created first (comes first in the table)
+                pos = ops.index(o) if rng.random() < 0.5 else len(ops)
+                ops.insert(pos, {"fn": o["fn"], "kw": kw})
+                meta["toggles"].append((t_, kw["index"], "in_service")) if o["fn"] == "create_heat_exchanger" else None
     # mesh closers / parallel pipes
     nclose = rng.choice([0, 0, 1, 1, 2, 3]) if n >= 3 else rng.choice([0, 0, 1])
     for _ in range(nclose):
